@@ -82,7 +82,8 @@ UNITS = [
 PY_BEARING = {"block", "def", "multiexpr", "control", "loop", "calldef", "modblock"}
 
 RAISERS = ["expr", "expr-multiline", "block-line", "module-func", "control-cond", "attr-expr", "filter", "in-def", "block-oneline",
-           "for-iterable-loop", "for-iterable", "while-cond", "def-call-arg", "module-func-not-last", "def-filter-blank"]
+           "for-iterable-loop", "for-iterable", "while-cond", "def-call-arg", "module-func-not-last", "def-filter-blank",
+           "elif-cond", "except-expr", "else-body"]
 
 
 def raiser(kind, k):
@@ -104,6 +105,13 @@ def raiser(kind, k):
                 2 + k, [11 + k])
     if kind == "control-cond":
         return "% if boom():\nx\n% endif\n", 0, []
+    # control lines that continue a compound statement carry frames of their own
+    if kind == "elif-cond":
+        return "% if False:\nx\n" + "y\n" * k + "% elif boom():\nz\n% endif\n", 2 + k, []
+    if kind == "except-expr":
+        return "% try:\n${boom()}\n" + "y\n" * k + "% except boom():\nz\n% endtry\n", 2 + k, []
+    if kind == "else-body":
+        return "% if False:\nx\n% else:\n" + "y\n" * k + "${boom()}\n% endif\n", 3 + k, []
     if kind == "for-iterable-loop":
         return "% for i9 in boom():\n${loop.index}\n% endfor\n", 0, []
     if kind == "for-iterable":
@@ -133,7 +141,7 @@ def build(data):
         kind, txt = g.pick(UNITS)
         prefix.append([kind, txt.replace("{N}", str(i))])
     return {"prefix": prefix, "shape": g.pick(["single", "include", "inherit", "nsdef", "chain", "single", "include-deep", "ccall-body"]),
-            "path": g.pick(["put_string", "files", "moddir", "moddir-reload", "moddir-relocated", "moddir-edited"]), "k": g.int(0, 2),
+            "path": g.pick(["put_string", "files", "moddir", "moddir-reload", "moddir-relocated", "moddir-edited", "lookup-files"]), "k": g.int(0, 2),
             "outer_pad": g.int(0, 4), "nodf": g.int(0, 3) == 3}
 
 
@@ -213,7 +221,7 @@ def make_lookup(T, path, d, mod=None, age=0, **kw):
             st_ = os.stat(p)
             os.utime(p, (st_.st_atime - age, st_.st_mtime - age))
         names[u] = p
-    if path == "files":
+    if path in ("files", "lookup-files"):
         return TemplateLookup(directories=[root], **kw), names
     mod = mod or os.path.join(d, "mod")
     lk = TemplateLookup(directories=[root], module_directory=mod, **kw)
@@ -359,7 +367,7 @@ def check_traceback(case, ev=None):
 
 
 # ---- warnings --------------------------------------------------------------
-WARNERS = ["expr-escape", "block-escape", "module-escape", "is-literal", "module-warn", "expr-literal", "block-literal"]
+WARNERS = ["expr-escape", "block-escape", "module-escape", "is-literal", "module-warn", "expr-literal", "block-literal", "elif-escape"]
 
 
 def warner(kind, k, tag):
@@ -374,6 +382,8 @@ def warner(kind, k, tag):
         return "a ${1if cs else 2} b\n", 0, r"invalid decimal literal"
     if kind == "block-literal":
         return "<%\n" + "    z = 1\n" * k + "    x = [0x1for q in (1,)]\n%>\n", 1 + k, r"invalid hexadecimal literal"
+    if kind == "elif-escape":
+        return '% if cs == "a":\nx\n' + "y\n" * k + '%% elif cs == "\\%s":\nz\n%% endif\n' % tag, 2 + k, r"invalid escape sequence"
     if kind == "is-literal":
         return "% if cs is 1:\nx\n% endif\n", 0, r'"is" with'
     if kind == "module-warn":
@@ -408,6 +418,10 @@ def check_warning(case, ev=None):
         elif path == "files":
             efile = fn
             go = lambda: Template(filename=fn, **XKW)
+        elif path == "lookup-files":
+            # compiled in memory by a lookup: the URI differs from the file name, the warning names the file
+            efile = fn
+            go = lambda: TemplateLookup(directories=[d], **XKW).get_template("w%d.mako" % k)
         else:
             efile = fn
             go = lambda: Template(filename=fn, module_directory=os.path.join(d, "mod"), **XKW)
